@@ -71,6 +71,7 @@ struct Ck<'a> {
     slot: usize,
     fopts: Vec<(&'static str, ParseFloatOptions)>,
     iopts: ParseIntegerOptions,
+    iopts_multi: ParseIntegerOptions,
 }
 
 type Entry<'e> = (&'e str, Box<dyn Fn(&[u8]) -> R + 'e>, Box<dyn Fn(&[u8]) -> R + 'e>);
@@ -82,7 +83,7 @@ impl<'a> Ck<'a> {
         if radix == 10 {
             fopts.push(("comma_caret", ParseFloatOptions::builder().decimal_point(b',').exponent(b'^').build_unchecked()));
         }
-        Ck { c11, rep, fam: Fam::new(rep, fam), g: Guarded::new(8192), slot, fopts, iopts: ParseIntegerOptions::new() }
+        Ck { c11, rep, fam: Fam::new(rep, fam), g: Guarded::new(8192), slot, fopts, iopts: ParseIntegerOptions::new(), iopts_multi: ParseIntegerOptions::builder().no_multi_digit(false).build().expect("integer options") }
     }
 
     /// Evaluate both predicates for one (format, type) pair on `s`.
@@ -168,10 +169,13 @@ impl<'a> Ck<'a> {
             self.judge(f.desc.name, "f32", oname, s, &|b| rf::<f32>(guarded(|| f32p(b, o)), b.len()), &|b| rfp::<f32>(guarded(|| f32pp(b, o))));
         }
         let io = self.iopts.clone();
+        let iom = self.iopts_multi.clone();
         macro_rules! int_ty {
             ($field:ident, $t:ty, $name:expr) => {{
                 let (p, pp) = (f.$field.parse, f.$field.partial);
                 self.judge(f.desc.name, $name, "std", s, &|b| ri::<$t>(guarded(|| p(b, &io)), b.len()), &|b| rip::<$t>(guarded(|| pp(b, &io))));
+                // multi-digit (4/8 bytes at a time) integer paths
+                self.judge(f.desc.name, $name, "multi", s, &|b| ri::<$t>(guarded(|| p(b, &iom)), b.len()), &|b| rip::<$t>(guarded(|| pp(b, &iom))));
             }};
         }
         int_ty!(u8, u8, "u8");
@@ -189,9 +193,11 @@ impl<'a> Ck<'a> {
                 self.judge("DEFAULT", $name, "std", s, &|b| rf::<$t>(guarded(|| lexical_core::parse::<$t>(b)), b.len()), &|b| rfp::<$t>(guarded(|| lexical_core::parse_partial::<$t>(b))));
             };
         }
+        let iom = self.iopts_multi.clone();
         macro_rules! it {
             ($t:ty, $name:expr) => {
                 self.judge("DEFAULT", $name, "std", s, &|b| ri::<$t>(guarded(|| lexical_core::parse::<$t>(b)), b.len()), &|b| rip::<$t>(guarded(|| lexical_core::parse_partial::<$t>(b))));
+                self.judge("DEFAULT", $name, "multi", s, &|b| ri::<$t>(guarded(|| lexical_core::parse_with_options::<$t, { lexical_core::format::STANDARD }>(b, &iom)), b.len()), &|b| rip::<$t>(guarded(|| lexical_core::parse_partial_with_options::<$t, { lexical_core::format::STANDARD }>(b, &iom))));
             };
         }
         fl!(f64, "f64");
